@@ -218,11 +218,21 @@ def _getTextTypeByMediaType(media_type, log=None):
         return _OTHER_TYPE
 
 
+def _chars(data):
+    """Byte strings are sniffed one byte per character: everything that is
+    looked for (BOM bytes, XML declaration, ``<meta>`` element) is ASCII
+    compatible.
+    """
+    if isinstance(data, (bytes, bytearray)):
+        return data.decode('latin-1')
+    return data
+
+
 def _getTextType(text, log=None):
     """Check if given text is XML (**naive test!**)
     used if no content-type given
     """
-    if text[:30].find('<?xml version=') != -1:
+    if _chars(text[:30]).find('<?xml version=') != -1:
         return _XML_APPLICATION_TYPE
     else:
         return _OTHER_TYPE
@@ -299,7 +309,7 @@ def getMetaInfo(text, log=None):
     p = _MetaHTMLParser()
 
     try:
-        p.feed(text)
+        p.feed(_chars(text))
     except html.parser.HTMLParseError:
         pass
 
@@ -342,6 +352,7 @@ def detectXMLEncoding(fp, log=None, includeDefault=True):  # noqa: C901
         - if BOM and xml declaration fail, utf-8 is returned according
           to XML 1.0.
     """
+    fp = _chars(fp)
     if isinstance(fp, str):
         fp = io.StringIO(fp)
 
@@ -359,7 +370,7 @@ def detectXMLEncoding(fp, log=None, includeDefault=True):  # noqa: C901
     # go to beginning of file and get the first 4 bytes
     oldFP = fp.tell()
     fp.seek(0)
-    (byte1, byte2, byte3, byte4) = tuple(map(ord, fp.read(4)))
+    (byte1, byte2, byte3, byte4) = tuple(map(ord, _chars(fp.read(4))))
 
     # try bom detection using 4 bytes, 3 bytes, or 2 bytes
     bomDetection = bomDict.get((byte1, byte2, byte3, byte4))
@@ -383,7 +394,7 @@ def detectXMLEncoding(fp, log=None, includeDefault=True):  # noqa: C901
 
     # assume xml declaration fits into the first 2 KB (*cough*)
     fp.seek(0)
-    buffer = fp.read(2048)
+    buffer = _chars(fp.read(2048))
 
     # set up regular expression
     xmlDeclPattern = r"""
